@@ -96,3 +96,24 @@ func RoutablePool(label string, n int) []*m.Address {
 	}
 	return out
 }
+
+// RoutableWhere returns n distinct routable identities whose address satisfies
+// want (deterministic for label); used to pick addresses with particular bits,
+// e.g. colliding derived switch labels.
+func RoutableWhere(label string, n int, want func(netip.Addr) bool) []*m.Address {
+	d := NewDRBG("ids/"+label, 1)
+	out := make([]*m.Address, 0, n)
+	seen := map[netip.Addr]bool{}
+	for tries := 0; len(out) < n; tries++ {
+		if tries > 2000000 {
+			panic("RoutableWhere: no matching identity found")
+		}
+		a := GenIdentity(d, m.RoutingAddressPrefix)
+		if seen[a.IP] || !want(a.IP) {
+			continue
+		}
+		seen[a.IP] = true
+		out = append(out, a)
+	}
+	return out
+}
